@@ -92,7 +92,8 @@ theorem block_finish_gen {ctx : Ctx} {s0 sIn sB : St} {stk0 : List Val} {σ : MS
   have hBnext : s0.next ≤ sB.next := by have := hstat.next; omega
   have hend_stack : (sB.endBlock s0.stack.length bt s0.labels).stack = s0.stack ++ bt.toList := by simp [hBtake]
   have hwEnd : WF (sB.endBlock s0.stack.length bt s0.labels) :=
-    hw0.of_same (by simp) (by simp; exact hBnext) (by rw [hend_stack]; simp; omega)
+    hw0.of_same (by simp) (by simp; exact hBnext) (by rw [hend_stack]; simp; omega) (endBlock_decl _ _ _ _ hstat.wf.decl)
+  have hdecl : sB.declLen ≤ (sB.endBlock s0.stack.length bt s0.labels).declLen := St.endBlock_declLen_ge _ _ _ _
   cases r with
   | oof => trivial
   | stuck => trivial
@@ -111,14 +112,16 @@ theorem block_finish_gen {ctx : Ctx} {s0 sIn sB : St} {stk0 : List Val} {σ : MS
       rw [hlabs, List.getElem?_append_left (List.length_pos_iff.mpr hne)] at h1; exact h1
     have hmem := List.mem_of_getElem? h1'
     have hfresh := hw0.fresh lab hmem
+    obtain ⟨h3, h4⟩ := h3
     rw [hbase] at h3
     obtain ⟨j1, j2, j3, j4, j5⟩ := h3
-    refine ⟨h0, lab, σ', h1', ?_, j1, j2, take_of_take_eq j3 hb0, j4, j5⟩
+    refine ⟨h0, lab, σ', h1', ?_, ⟨j1, j2, take_of_take_eq j3 hb0, j4, j5⟩, fun ht => Nat.le_trans (h4 ht) hdecl⟩
     simp only [blockExec]
     rw [if_neg (by omega)]
   | branch l stkB locB =>
     obtain ⟨h0, lab, σ', h1, h2, h3⟩ := hsim
     subst h2
+    obtain ⟨h3, h4⟩ := h3
     rw [hbase] at h3
     obtain ⟨j1, j2, j3, j4, j5⟩ := h3
     cases l with
@@ -153,7 +156,7 @@ theorem block_finish_gen {ctx : Ctx} {s0 sIn sB : St} {stk0 : List Val} {σ : MS
       rw [label_snoc_succ hlabs] at h1
       have hmem := St.label_mem h1
       have hfresh := hw0.fresh lab hmem
-      refine ⟨h0, lab, σ', h1, ?_, j1, j2, take_of_take_eq j3 hb0, j4, j5⟩
+      refine ⟨h0, lab, σ', h1, ?_, ⟨j1, j2, take_of_take_eq j3 hb0, j4, j5⟩, fun ht => Nat.le_trans (h4 ht) hdecl⟩
       simp only [blockRes, blockExec]
       rw [if_neg (by omega)]
 
